@@ -4,11 +4,11 @@ CONSTANTS
     Nodes = {n1, n2}
     MaxNum = 0
     MaxCid = 1
-    MaxSteps = 2
-    Mode = "layouts"
-    InstanceMemory = FALSE
+    MaxSteps = 3
+    Mode = "live"
+    InstanceMemory = TRUE
     FindPrefersDirectChild = FALSE
-    ExcuseDecoy = FALSE
+    ExcuseDecoy = TRUE
 SPECIFICATION Spec
-INVARIANTS Determined
+INVARIANTS Sensitive
 CHECK_DEADLOCK FALSE
